@@ -20,6 +20,13 @@ pub mod c29;
 pub mod c25;
 pub mod c27;
 pub mod c36;
+pub mod c11;
+pub mod c12;
+pub mod c14;
+pub mod c15;
+pub mod c16;
+pub mod c16core;
+pub mod c17;
 
 pub fn dispatch(cfg: &Cfg) -> Option<Outcome> {
     Some(match cfg.prop.as_str() {
@@ -43,6 +50,12 @@ pub fn dispatch(cfg: &Cfg) -> Option<Outcome> {
         "C25" => c25::run(cfg),
         "C27" => c27::run(cfg),
         "C36" => c36::run(cfg),
+        "C11" => c11::run(cfg),
+        "C12" => c12::run(cfg),
+        "C14" => c14::run(cfg),
+        "C15" => c15::run(cfg),
+        "C16" => c16::run(cfg),
+        "C17" => c17::run(cfg),
         _ => return None,
     })
 }
